@@ -16,6 +16,7 @@ RULE = ("FULL product over (n_in 1..4 [thorough 1..8], n_out 1..4 [1..8], EVERY 
         "the repository's own tests. non-trivial = flag != ALL, index > 0, or any deviation.")
 ASSUMPTIONS = ["vf/ref/bip143_ref.py transcribes BIP143; scriptCode is passed pre-serialised as the function's contract takes it"]
 OBLIGATIONS = {
+    "history_sequences": "operation sequences (non-initial process states) explored",
     "single_index_ge_outputs": "SIGHASH_SINGLE with input index >= number of outputs",
     "single_index_lt_outputs": "SIGHASH_SINGLE with a matching output",
     "anyonecanpay": "an ANYONECANPAY flag", "signed_input_scriptsig_nonempty": "the signed input has a non-empty scriptSig",
@@ -95,14 +96,31 @@ CASES = {"msg": chk_msg}
 
 
 def run_case(kind, case):
+    if kind == "seq":
+        from vf import seqexplore
+        return seqexplore.replay(run_case, case)
     return CASES[kind](case)
 
 
+def seq_ops(job):
+    seed = job["seed"]
+    a0 = {k: v[0] for k, v in dims().items()}
+    ops = []
+    for n_in, n_out, idx, flag, extra in ((1, 1, 0, 1, {}), (3, 1, 2, 0x83, {}), (3, 1, 2, 0x03, {}), (2, 2, 1, 0x02, {"seq": "mixed"}), (2, 3, 0, 0x81, {"version": 2, "locktime": -1}),
+                                          (4, 4, 3, 0x01, {"ss_signed": 107, "amount": 0}), (1, 2, 0, 0x82, {"sc": 603})):
+        ops.append(("msg", {"seed": seed, "n_in": n_in, "n_out": n_out, "index": idx, "flag": flag, "a": dict(a0, **extra)}))
+    return ops
+
+
 def jobs(tier, seed):
-    return [{"name": f"msg/{sh}", "part": "msg", "shard": [sh, 16], "weight": 5} for sh in range(16)]
+    from vf.runner import seq_jobs
+    return [{"name": f"msg/{sh}", "part": "msg", "shard": [sh, 16], "weight": 5} for sh in range(16)] + seq_jobs(2, weight=2)
 
 
 def run_job(job):
+    if job["part"] == "seq":
+        from vf.runner import run_seq_job
+        return run_seq_job(job, seq_ops(job), run_case)
     acc = Acc(job)
     seed, tier = job["seed"], job["tier"]
     N = 4 if tier == "quick" else 8
